@@ -13,28 +13,63 @@ import (
 
 // DemandSpec scripts an on-demand scenario on path "p".
 type DemandSpec struct {
-	Static     bool // on-demand static source (harness plays the source through Handler.SetReady/SetNotReady); else on-demand publisher
-	Source     bool // a source/publisher shows up after the first requests are on hold
-	SourceGoes bool // ... and goes away again once everybody is served
-	Describe   bool // a describe request D1 next to the read request R1
-	Late       bool // a later reader R2 arrives after the source went away / after the timeout
-	Close      bool // the manager is shut down concurrently with the first phase instead of at the end
-	MoreReaders int // additional readers requesting at the start (R3, R4, ...)
-	Blocking   bool // static source only: the protocol client's Run blocks until its context is cancelled (like the real ones) instead of failing at once
+	Static      bool // on-demand static source (harness plays the source through Handler.SetReady/SetNotReady); else on-demand publisher
+	Source      bool // a source/publisher shows up after the first requests are on hold
+	SourceGoes  bool // ... and goes away again once everybody is served
+	Describe    bool // a describe request D1 next to the read request R1
+	Late        bool // a later reader R2 arrives after the source went away / after the timeout
+	Close       bool // the manager is shut down concurrently with the first phase instead of at the end
+	MoreReaders int  // additional readers requesting at the start (R3, R4, ...)
+	Fails       bool // static source, Blocking: the source goes away by FAILING: its own Run reports not-ready (as the real clients do in a defer) and returns an error; the handler then retries
+	FailFirst   bool // static source, Blocking: the first connection attempt of the protocol client fails at once, the retry keeps running
+	LateEarly   bool // the late reader R2 requests right after the source has gone, without waiting for the kicked readers to detach
+	Blocking    bool // static source only: the protocol client's Run blocks until its context is cancelled (like the real ones) instead of failing at once
 }
 
 // BlockingSource is a static source instance whose Run does what every real protocol client does when nothing
 // goes wrong on the network: it returns when its context is cancelled.
-type BlockingSource struct{ Logger }
+type BlockingSource struct {
+	Logger
+	H         *staticsources.Handler
+	FailFirst bool // the first Run fails at once (connection refused); the handler retries after its pause
+	runs      int
+	Fail      chan struct{} // closed by the harness: the source fails (once)
+	Ready     bool          // set by the harness once SetReady succeeded
+	fired     bool
+}
 
 // Run implements the static source.
 func (b *BlockingSource) Run(p defs.StaticSourceRunParams) error {
 	vsched.Log("source instance running")
+	b.runs++
+	if b.FailFirst && b.runs == 1 {
+		vsched.Log("source instance stopped")
+		return fmt.Errorf("connection refused")
+	}
 	for {
-		sel := vsched.Select(false, vsched.R(p.Context.Done()), vsched.R(p.ReloadConf))
+		cases := []vsched.Case{vsched.R(p.Context.Done()), vsched.R(p.ReloadConf)}
+		if b.Fail != nil && !b.fired {
+			cases = append(cases, vsched.R(b.Fail))
+		}
+		sel := vsched.Select(false, cases...)
 		if sel.I == 0 {
 			break
 		}
+		if sel.I == 2 {
+			// what the real protocol clients do when the connection breaks: report not-ready from Run itself
+			// (deferred), then return the error
+			b.fired = true
+			if b.Ready {
+				b.Ready = false
+				b.H.SetNotReady(defs.PathSourceStaticSetNotReadyReq{})
+			}
+			vsched.Log("source instance stopped")
+			return fmt.Errorf("source failed")
+		}
+	}
+	if b.Ready {
+		b.Ready = false
+		b.H.SetNotReady(defs.PathSourceStaticSetNotReadyReq{})
 	}
 	vsched.Log("source instance stopped")
 	return fmt.Errorf("terminated")
@@ -44,6 +79,9 @@ func (b *BlockingSource) Run(p defs.StaticSourceRunParams) error {
 func (b *BlockingSource) APISourceDescribe() *defs.APIPathSource {
 	return &defs.APIPathSource{Type: "rtspSource", ID: ""}
 }
+
+// SlowDetach makes kicked reader sessions detach late (set per scenario body).
+var SlowDetach bool
 
 func (p *PM) readTask(id string, done chan struct{}) {
 	defer vsched.Close(done)
@@ -61,6 +99,10 @@ func (p *PM) readTask(id string, done chan struct{}) {
 		vsched.Log("%s answered without stream", id)
 	}
 	vsched.Recv(closed)
+	if SlowDetach {
+		// a session may take arbitrarily long to tear itself down: it detaches only when nothing else can run
+		vsched.WaitQuiet()
+	}
 	vsched.Log("detaching %s", id)
 	res.Path.RemoveReader(defs.PathRemoveReaderReq{Author: r})
 	vsched.Log("detached %s", id)
@@ -70,8 +112,10 @@ func (p *PM) readTask(id string, done chan struct{}) {
 func DemandBody(c *conf.Conf, sp DemandSpec) func() {
 	return func() {
 		Live = nil
+		SlowDetach = sp.LateEarly
 		pm := New(c, AllowAll{}, true)
 		Live = pm
+		var bsrc *BlockingSource
 		if sp.Static && sp.Blocking {
 			vsched.WaitQuiet() // the path goroutine has created its (not yet started) source handler
 			installed := false
@@ -82,7 +126,11 @@ func DemandBody(c *conf.Conf, sp DemandSpec) func() {
 			}()
 			if pa := pm.PathByName("p"); pa != nil {
 				if h := core.VerifStaticHandler(pa); h != nil {
-					staticsources.VerifSetInstance(h, &BlockingSource{})
+					bsrc = &BlockingSource{H: h, FailFirst: sp.FailFirst}
+					if sp.Fails {
+						bsrc.Fail = make(chan struct{})
+					}
+					staticsources.VerifSetInstance(h, bsrc)
 					installed = true
 				}
 			}
@@ -127,11 +175,22 @@ func DemandBody(c *conf.Conf, sp DemandSpec) func() {
 					}
 					res := h.SetReady(defs.PathSourceStaticSetReadyReq{Desc: desc, UseRTPPackets: false, ReplaceNTP: true})
 					vsched.Log("source ready %s", ErrClass(res.Err))
+					if res.Err == nil && bsrc != nil {
+						bsrc.Ready = true
+					}
 					if res.Err != nil || !sp.SourceGoes {
 						return
 					}
 					vsched.WaitQuiet()
 					vsched.Log("source leaving")
+					if bsrc != nil && bsrc.Fail != nil {
+						vsched.Close(bsrc.Fail)
+						vsched.Log("source failing")
+						return
+					}
+					if bsrc != nil {
+						bsrc.Ready = false
+					}
 					h.SetNotReady(defs.PathSourceStaticSetNotReadyReq{})
 					vsched.Log("source gone")
 					return
@@ -164,7 +223,9 @@ func DemandBody(c *conf.Conf, sp DemandSpec) func() {
 		vsched.Recv(d1)
 		r2 := make(chan struct{})
 		if sp.Late {
-			vsched.WaitQuiet()
+			if !sp.LateEarly {
+				vsched.WaitQuiet()
+			}
 			vsched.Log("late phase")
 			vsched.Go(func() { pm.readTask("R2", r2) })
 		} else {
@@ -199,9 +260,16 @@ func CheckDemand(o *vsched.Outcome) (string, string) {
 	attached := map[string]bool{} // reader sessions attached to the stream for sure
 	pubAttached := map[string]bool{}
 	pubGone := map[string]bool{}
+	instRunning, instStopped := 0, 0
 	shuttingDown := false
 	for i, l := range o.Trace {
 		w := strings.Fields(l)
+		if l == "source instance running" {
+			instRunning++
+		}
+		if l == "source instance stopped" {
+			instStopped++
+		}
 		switch {
 		case len(w) == 2 && w[0] == "attached":
 			// ("attached" is logged by the publisher's task once it has its answer: the path may have closed it already)
@@ -228,6 +296,9 @@ func CheckDemand(o *vsched.Outcome) (string, string) {
 		case w[0] == "closed":
 			closedAt = i
 			// the manager has shut down: every path has terminated, and a terminating path closes its publisher
+			if instRunning != instStopped {
+				return "source-instance-left-running", fmt.Sprintf("the path manager was shut down but %d run(s) of the static source's protocol client never ended (%d started, %d ended) | %s", instRunning-instStopped, instRunning, instStopped, tr)
+			}
 			if len(pubAttached) > 0 {
 				return "publisher-not-closed-on-path-close", fmt.Sprintf("the path manager was shut down but publisher(s) %v, attached to a path, were never closed | %s", keys(pubAttached), tr)
 			}
